@@ -178,6 +178,18 @@ pub fn adjust(cfg: &mut SwarmCfg, tier: &str, r: &mut Prng) {
             setw(cfg, "send_app", 10);
             setw(cfg, "crash", 0);
         }
+        "C17" => {
+            cfg.oracles = sv(&["agreement", "reinit"]);
+            cfg.faults = sv(&["N-REORD", "N-RACE"]);
+            cfg.knobs.push(("reinit".into(), 1));
+            cfg.n_parties = cfg.n_parties.clamp(3, 8);
+            setw(cfg, "commit", 16);
+            setw(cfg, "propose", 8);
+            setw(cfg, "branch", 5);
+            setw(cfg, "ext_commit", 2);
+            setw(cfg, "crash", 0);
+            setw(cfg, "send_app", 4);
+        }
         "C06" => {
             cfg.oracles = sv(&["agreement", "restore"]);
             cfg.faults = sv(&["P-CRASH", "N-REORD", "N-DUP", "N-RACE", "N-STALE", "crash-with-pending"]);
@@ -237,6 +249,9 @@ pub fn extra_kinds(w: &World, kinds: &mut Vec<(&'static str, u32)>) {
     }
     if w.cfg.weight("byz") > 0 && w.live_members(g).len() >= 2 {
         kinds.push(("byz", w.cfg.weight("byz")));
+    }
+    if w.cfg.weight("branch") > 0 && w.live_members(g).len() >= 2 && w.groups[g].reinit_at.is_none() {
+        kinds.push(("branch", w.cfg.weight("branch")));
     }
     if w.cfg.weight("observe") > 0 {
         let n = w.ext.observers.len();
@@ -355,6 +370,16 @@ pub fn extra_action(w: &mut World, kind: &str) -> Option<Action> {
                 m,
             })
         }
+        "branch" => {
+            let live = w.live_members(g);
+            let p = *w.prng.pick(&live);
+            Some(Action::Special {
+                kind: "branch".into(),
+                a: p as u64,
+                b: w.prng.next_u64() >> 4,
+                c: w.prng.below(3),
+            })
+        }
         "observe" => Some(Action::Special {
             kind: "observe".into(),
             a: g as u64,
@@ -465,6 +490,20 @@ pub fn adjust_commit(w: &mut World, _p: usize, _g: usize, spec: &mut CommitSpec)
     if w.cfg.knob("no-gce").is_some() {
         spec.gce = None;
     }
+    if w.cfg.knob("reinit").is_some() {
+        let latest = w.groups[_g].log.len();
+        let roster = w.groups[_g].members.get(&(latest as u64)).map(|m| m.len()).unwrap_or(0);
+        if latest >= 3 && roster >= 2 && w.parties[_p].mems[_g].cached.is_empty() && w.prng.chance(1, 5) {
+            // a re-init proposal has to be alone in its commit
+            let suite = if w.cfg.suite == 1 && w.prng.chance(1, 3) { 3 } else { w.cfg.suite };
+            *spec = CommitSpec {
+                reinit: Some(suite),
+                ratchet_tree_ext: true,
+                single_welcome: true,
+                ..Default::default()
+            };
+        }
+    }
     if let Some(d) = w.cfg.knob("detached") {
         if w.prng.chance(1, d) {
             spec.detached = true;
@@ -571,6 +610,7 @@ pub fn setup(w: &mut World) -> VResult<()> {
 
 /// run-level checks at the end of a run (after the heal phase)
 pub fn finish(w: &mut World) -> VResult<()> {
+    crate::c17::finish_reinit(w)?;
     // bounded liveness: every live member sits in the latest epoch
     for g in 0..w.groups.len() {
         let latest = w.groups[g].log.len() as u64;
